@@ -21,6 +21,8 @@
 //	close       close(ch)
 //	callpanics  calls of library functions that panic on bad arguments:
 //	            AEAD Open/Seal (nonce length), Scalar Div/Inv (zero), rand.Int (max <= 0)
+//	panic       an explicit panic(...) statement; guard = every governing condition
+//	exit        os.Exit / log.Fatal* / <logger>.Fatal / log.Panic* / runtime.Goexit calls; guard = every governing condition
 //
 // close and mapwrite sites carry structural facts instead of conditions: "defer" (the close is a
 // deferred call), "made:x" (the channel / map x is created by make or a literal in the same function).
@@ -68,8 +70,8 @@ var reach = []struct {
 	{"p2p/discover/membership.go", []string{"serfNet.Listen", "serfNet.Lookup", "serfNet.MembersID", "serfNet.NumOfPeers", "serfNet.MembersIP"}},
 	{"share/dkg/pedersen/pdkg.go", []string{"handlePeerMsg", "handleRequest", "pdkg.Loop", "decodePubKey", "reportErr"}},
 	{"share/dkg/pedersen/pdkg_pipes.go", []string{"exchangePub", "genDistKeyGenerator", "getAndProcessDeals", "getAndProcessResponses", "genGroup"}},
-	{"share/dkg/pedersen/dkg.go", []string{"initDistKeyGenerator", "NewDistKeyGenerator", "DistKeyGenerator.ProcessDeal", "DistKeyGenerator.ProcessResponse", "DistKeyGenerator.Certified", "DistKeyGenerator.QUAL", "DistKeyGenerator.qualIter", "DistKeyGenerator.DistKeyShare", "DistKeyShare.Commitments", "findPub"}},
-	{"share/vss/pedersen/vss.go", []string{"NewDealer", "NewVerifier", "Verifier.ProcessEncryptedDeal", "Verifier.decryptDeal", "Verifier.ProcessResponse", "Verifier.DealCertified", "Verifier.Deal", "Verifier.ProcessJustification", "Verifier.UnsafeSetResponseDKG", "Dealer.ProcessResponse", "Dealer.PrivatePoly", "newAggregator", "aggregator.VerifyDeal", "aggregator.verifyResponse", "aggregator.verifyJustification", "aggregator.addResponse", "aggregator.EnoughApprovals", "aggregator.DealCertified", "validT", "findPub", "sessionID", "Response.Hash", "Justification.Hash", "Deal.MarshalBinary", "Deal.UnmarshalBinary", "Signature.ToBigInt"}},
+	{"share/dkg/pedersen/dkg.go", []string{"initDistKeyGenerator", "NewDistKeyGenerator", "DistKeyGenerator.Deals", "DistKeyGenerator.ProcessDeal", "DistKeyGenerator.ProcessResponse", "DistKeyGenerator.Certified", "DistKeyGenerator.QUAL", "DistKeyGenerator.qualIter", "DistKeyGenerator.DistKeyShare", "DistKeyShare.Commitments", "findPub"}},
+	{"share/vss/pedersen/vss.go", []string{"NewDealer", "Dealer.EncryptedDeal", "Dealer.EncryptedDeals", "NewVerifier", "Verifier.ProcessEncryptedDeal", "Verifier.decryptDeal", "Verifier.ProcessResponse", "Verifier.DealCertified", "Verifier.Deal", "Verifier.ProcessJustification", "Verifier.UnsafeSetResponseDKG", "Dealer.ProcessResponse", "Dealer.PrivatePoly", "newAggregator", "aggregator.VerifyDeal", "aggregator.verifyResponse", "aggregator.verifyJustification", "aggregator.addResponse", "aggregator.EnoughApprovals", "aggregator.DealCertified", "validT", "findPub", "sessionID", "Response.Hash", "Justification.Hash", "Deal.MarshalBinary", "Deal.UnmarshalBinary", "Signature.ToBigInt"}},
 	{"share/vss/pedersen/dh.go", []string{"dhExchange", "newAEAD", "context"}},
 	{"sign/tbls/tbls.go", []string{"SigShare.Index", "SigShare.Value", "sliceUniqMap", "Recover"}},
 	{"share/poly.go", []string{"NewPriPoly", "PriPoly.Threshold", "PriPoly.Eval", "PriPoly.Commit", "PriPoly.Coefficients", "NewPubPoly", "PubPoly.Info", "PubPoly.Threshold", "PubPoly.Commit", "PubPoly.Eval", "PubPoly.Add", "RecoverCommit"}},
@@ -118,7 +120,6 @@ var notReach = map[string]string{
 	"dkg.stampSender":                                  "writes a field of the message Loop just received (non-nil by the type switch); no peer-indexed access",
 	"dkg.fanOut":                                       "channel plumbing (C14)",
 	"dkg.mergeErrors":                                  "channel plumbing (C14)",
-	"dkg.DistKeyGenerator.Deals":                       "own deals (local)",
 	"dkg.DistKeyGenerator.SetTimeout":                  "not called by the pipeline",
 	"dkg.DistKeyGenerator.isInQUAL":                    "not called by the pipeline",
 	"dkg.DistKeyGenerator.ProcessJustification":        "not called by the pipeline (name collision with Verifier.ProcessJustification)",
@@ -126,8 +127,6 @@ var notReach = map[string]string{
 	"dkg.DistKeyShare.PriShare":                        "accessor, not in the pipeline",
 	"dkg.DistKeyShare.Renew":                           "not called by the pipeline",
 	"dkg.NewDistKeyGeneratorWithoutSecret":             "not called by the pipeline",
-	"vss.Dealer.EncryptedDeal":                         "own deals (local)",
-	"vss.Dealer.EncryptedDeals":                        "own deals (local)",
 	"vss.Dealer.PlaintextDeal":                         "testing helper",
 	"vss.Dealer.SecretCommit":                          "not called by the pipeline",
 	"vss.Dealer.Commits":                               "not called by the pipeline",
@@ -816,7 +815,15 @@ func (w *walker) call(c *ast.CallExpr, gs []guard) {
 				w.expr(a, gs)
 			}
 			return
-		case "len", "cap", "append", "copy", "new", "delete", "panic", "string", "int", "uint32", "uint64", "byte", "uint16", "int64":
+		case "panic":
+			// an explicit panic statement is a site like any other (review G, D1): its guard is every
+			// condition that governs it — the model clause has to say why that conjunction never holds
+			w.add("panic", c, gs, func(g guard) bool { return true })
+			for _, a := range c.Args {
+				w.expr(a, gs)
+			}
+			return
+		case "len", "cap", "append", "copy", "new", "delete", "string", "int", "uint32", "uint64", "byte", "uint16", "int64":
 			for _, a := range c.Args {
 				w.expr(a, gs)
 			}
@@ -841,6 +848,9 @@ func (w *walker) call(c *ast.CallExpr, gs []guard) {
 	}
 	if s, ok := c.Fun.(*ast.SelectorExpr); ok {
 		switch s.Sel.Name {
+		case "Exit", "Fatal", "Fatalf", "Fatalln", "Panic", "Panicf", "Panicln", "Goexit":
+			// os.Exit / log.Fatal* / logger.Fatal / log.Panic*: the process (or goroutine) ends
+			w.add("exit", c, gs, func(g guard) bool { return true })
 		case "Open", "Seal":
 			if len(c.Args) == 4 {
 				ns := w.t(c.Args[1])
